@@ -149,6 +149,9 @@ def grammar(tier, seed):
     for decor in (1, 2, 3):
         ds.append(Decl(f"G7 decorated (style {decor}) plain", [("A", 0, "0", None, []), ("C", 1, "1", None, []), ("G", 2, "2", None, []), ("T", 3, "3", None, [])], decor=decor))
         ds.append(Decl(f"G7 decorated (style {decor}) with display/alt", [("A", 0, "0", "*", [5, 6]), ("C", 1, "1", None, []), ("G", 2, "2", "g", [3, 7])], bits=3, layout=decor, decor=decor))
+    # G4d: an alternative code that needs more bits than the largest discriminant does not widen the codec
+    ds.append(Decl("G4d alternative beyond the discriminants' width (no #[bits])", [("A", 0, "0", None, []), ("C", 1, "1", None, []), ("G", 2, "2", None, []), ("T", 3, "3", None, [16, 200])]))
+    ds.append(Decl("G4d alternative beyond the discriminants' width (#[bits(2)])", [("A", 0, "0", None, [64]), ("C", 1, "1", None, []), ("G", 2, "2", None, []), ("T", 3, "3", None, [0x10])], bits=2, layout=1))
     # G4c: an 8-bit codec whose alternatives are the lower-case letters, written as byte literals
     for lay in (3, 7):
         ds.append(Decl(f"G4c byte-literal alternatives layout={lay}", [("A", 65, "b'A'", None, [97]), ("C", 67, "b'C'", None, [99]), ("G", 71, "b'G'", None, [103]), ("T", 84, "b'T'", None, [116, 117, 85])], bits=8, layout=lay))
